@@ -112,6 +112,9 @@ func (s c12State) key() string {
 
 type c12In struct {
 	K, Id, V string
+	// Free marks an event that overlapped a rule operation of another
+	// client (set after the run; see event-dispatch-not-atomic).
+	Free bool
 }
 
 type c12Out struct {
@@ -174,12 +177,15 @@ func c12Step(st interface{}, in interface{}, out interface{}) (bool, interface{}
 	return false, s
 }
 
-// c12ModelFreeEvents accepts any result for an event: used to tell whether a
-// history is non-linearizable only because of an event's result.
+// c12ModelFreeEvents accepts any result for an event that ran while another
+// client's rule operation was in flight: used to tell whether a history is
+// non-linearizable only because of such an event's result.  Events that did
+// not overlap a rule operation stay fully constrained (a stale rule served
+// after the writer returned is not this finding).
 var c12ModelFreeEvents = porcupine.Model{
 	Init: func() interface{} { return c12State{map[string]string{}, map[string]string{}, map[string]bool{}} },
 	Step: func(st interface{}, in interface{}, out interface{}) (bool, interface{}) {
-		if in.(c12In).K == "event" {
+		if i := in.(c12In); i.K == "event" && i.Free {
 			return out.(c12Out).Err == "", st
 		}
 		return c12Step(st, in, out)
@@ -356,6 +362,20 @@ func runC12Once(c c12Case, o *vlib.Outcome) *vlib.Outcome {
 	if res == porcupine.Illegal {
 		// Event processing is not atomic (known finding): is the history
 		// explained once the events' results are left unconstrained?
+		for i := range history {
+			in := history[i].Input.(c12In)
+			if in.K != "event" {
+				continue
+			}
+			for _, b := range history {
+				ib := b.Input.(c12In)
+				if b.ClientId != history[i].ClientId && (ib.K == "addRule" || ib.K == "remRule" || ib.K == "enable" || ib.K == "disable") &&
+					history[i].Call <= b.Return && b.Call <= history[i].Return {
+					in.Free = true
+				}
+			}
+			history[i].Input = in
+		}
 		if r2 := porcupine.CheckOperations(c12ModelFreeEvents, history); r2 && vlib.KnownActive("event-dispatch-not-atomic") {
 			o.Known = append(o.Known, "event-dispatch-not-atomic")
 			return o
